@@ -184,12 +184,19 @@ static void run_target(int t, const std::string &in) {
   // (a mutated armor hardly ever keeps its checksum, so the armor entry point alone would stop most inputs before any packet is parsed)
   bool armored = in.compare(0, 5, "-----") == 0; tmcg_openpgp_octets_t oct; if (!armored && t >= T_ARMOR && t <= T_RADIX64) oct.assign(in.begin(), in.end());
   switch (t) {
-    case T_CARD: guarded([&] { TMCG_Card c; if (c.import(in)) { gate(t); std::ostringstream o; o << c; } }); break;
-    case T_CARDSECRET: guarded([&] { TMCG_CardSecret c; if (c.import(in)) { gate(t); std::ostringstream o; o << c; } }); break;
+    // import into a fresh object AND into objects that already hold a card of other dimensions (the usual `TMCG_Card c(players, bits); in >> c;`
+    // pattern: import resizes the held matrix before it parses the body), then once more into the object just filled
+    case T_CARD: guarded([&] { TMCG_Card c; if (c.import(in)) { gate(t); std::ostringstream o; o << c; }
+        static const size_t HELD[][2] = {{4, 8}, {3, 2}, {5, 2}, {2, 1}, {1, 3}};
+        for (auto &hd : HELD) { TMCG_Card u(hd[0], hd[1]); if (u.import(in)) { std::ostringstream o; o << u; u.import(in); } TMCG_Card u2(hd[0], hd[1]); std::istringstream is(in); is >> u2; } }); break;
+    case T_CARDSECRET: guarded([&] { TMCG_CardSecret c; if (c.import(in)) { gate(t); std::ostringstream o; o << c; }
+        static const size_t HELD[][2] = {{4, 8}, {3, 2}, {5, 2}, {2, 1}, {1, 3}};
+        for (auto &hd : HELD) { TMCG_CardSecret u(hd[0], hd[1]); if (u.import(in)) { std::ostringstream o; o << u; u.import(in); } TMCG_CardSecret u2(hd[0], hd[1]); std::istringstream is(in); is >> u2; } }); break;
     case T_VCARD: guarded([&] { VTMF_Card c; if (c.import(in)) { gate(t); vv->CheckElement(c.c_1); } }); break;
     case T_VCARDSECRET: guarded([&] { VTMF_CardSecret c; if (c.import(in)) gate(t); }); break;
     case T_VSTACK: guarded([&] { TMCG_Stack<VTMF_Card> s; if (s.import(in)) { gate(t); std::ostringstream o; o << s; } }); break;
-    case T_TSTACK: guarded([&] { TMCG_Stack<TMCG_Card> s; if (s.import(in)) { gate(t); std::ostringstream o; o << s; } }); break;
+    case T_TSTACK: guarded([&] { TMCG_Stack<TMCG_Card> s; if (s.import(in)) { gate(t); std::ostringstream o; o << s; }
+        { TMCG_Stack<TMCG_Card> u; for (size_t z = 0; z < 3; z++) u.push(TMCG_Card(3 + z, 2)); if (u.import(in)) { std::ostringstream o; o << u; while (u.size()) { TMCG_Card x(5, 2); u.pop(x); } } } }); break; // a used stack; popping into cards of other dimensions
     case T_VSTACKSECRET: guarded([&] { TMCG_StackSecret<VTMF_CardSecret> s; if (s.import(in)) { gate(t); if (s.size() == W->s.size()) { TMCG_Stack<VTMF_Card> o; W->T->TMCG_MixStack(W->s, o, s, vv); } } }); break;
     case T_TSTACKSECRET: guarded([&] { TMCG_StackSecret<TMCG_CardSecret> s; if (s.import(in)) { gate(t); std::ostringstream o; o << s; } }); break;
     case T_MPZ_STREAM: guarded([&] { std::istringstream is(in); mpz_t v; mpz_init(v); try { for (int i = 0; i < 8 && is.good(); i++) { is >> v; gate(t); } } catch (...) { mpz_clear(v); throw; } mpz_clear(v); }); break;
